@@ -1,6 +1,7 @@
 (* C03 — Every lint points into the text; every suggestion is a well-defined local edit.
    Pinned statements only. *)
 Require Import Base Suggestion Rebase ListLemmas SuggestionProofs SpanSchemas Tables_spanexprs SpanSites.
+Require Import Cache C03Span C03SpanProofs C03LintGroup C03LintGroupProofs.
 
 (* the edit primitive: total on spans inside the text *)
 Theorem C03_apply_total : forall s sp src, span_in (length src) sp -> is_ok (apply s sp src) = true.
@@ -133,6 +134,244 @@ Proof. exact rule_span_sites_known. Qed.
 Check C03_rule_span_sites_known :
   forallb (fun e => schema_known (snd e)) rule_span_sites = true /\ 40 <= rule_files_scanned.
 Print Assumptions C03_rule_span_sites_known.
+
+(* 100% of the rule files: the `span` of EVERY `Lint { .. }` constructed in a rule file (table regenerated on every run) is a
+   token's span, the hull of a token slice or one of the computed schemas (a local variable is followed to its `let`);
+   every rule file constructs such a Lint, except the two named files, which only instantiate MapPhraseLinter (whose
+   own Lint construction is in the table) *)
+Theorem C03_rule_lint_sites_known :
+  forallb (fun e => lint_src_known (snd e)) rule_lint_sites = true /\
+  forallb file_covered rule_files = true /\
+  length rule_files = rule_files_scanned /\
+  files_without_lint = files_without_lint_expected.
+Proof. exact rule_lint_sites_known. Qed.
+Check C03_rule_lint_sites_known :
+  forallb (fun e => lint_src_known (snd e)) rule_lint_sites = true /\
+  forallb file_covered rule_files = true /\
+  length rule_files = rule_files_scanned /\
+  files_without_lint = files_without_lint_expected.
+Print Assumptions C03_rule_lint_sites_known.
+Print files_without_lint_expected.
+
+(* each classified source is in bounds under the token invariant (C02) and the side condition of its schema *)
+Theorem C03_lint_src_in_bounds :
+  forall n ts k s, Forall (span_in n) ts -> src_denotes ts k s -> span_in n s.
+Proof. exact lint_src_in_bounds. Qed.
+Check C03_lint_src_in_bounds :
+  forall n ts k s, Forall (span_in n) ts -> src_denotes ts k s -> span_in n s.
+Print Assumptions C03_lint_src_in_bounds.
+
+(* `enum Suggestion` has exactly the three variants of Model/Suggestion.v (so C03_apply_spec covers every suggestion a rule
+   can build) and every `Suggestion::x` used in a rule file is one of them or a helper of suggestion.rs that builds one *)
+Theorem C03_rule_suggestion_sites_known :
+  suggestion_variants = suggestion_variants_expected /\
+  forallb (fun e => sugg_known (snd e)) rule_suggestion_sites = true /\
+  60 <= length rule_suggestion_sites.
+Proof. exact rule_suggestion_sites_known. Qed.
+Check C03_rule_suggestion_sites_known :
+  suggestion_variants = suggestion_variants_expected /\
+  forallb (fun e => sugg_known (snd e)) rule_suggestion_sites = true /\
+  60 <= length rule_suggestion_sites.
+Print Assumptions C03_rule_suggestion_sites_known.
+Print suggestion_variants_expected.
+
+(* ================= span.rs, complete (Model/C03Span.v: 64-bit usize, debug-build panics) ================= *)
+(* push_by/pull_by and pushed_by/pulled_by are inverse wherever defined; pulled_by is None exactly when by > start *)
+Theorem C03_span_rebase_inverse :
+  (forall s k s', u_push_by s k = Ok s' -> u_pull_by s' k = Ok s) /\
+  (forall s k s', urep s -> u_pull_by s k = Ok s' -> u_push_by s' k = Ok s) /\
+  (forall s k s', u_pushed_by s k = Ok s' -> u_pulled_by s' k = Ok (Some s)) /\
+  (forall s k s', urep s -> u_pulled_by s k = Ok (Some s') -> u_pushed_by s' k = Ok s) /\
+  (forall s k, uwf s -> (ustart s < k)%N -> u_pulled_by s k = Ok None) /\
+  (forall s k, uwf s -> (k <= ustart s)%N -> u_pulled_by s k = Ok (Some (mkuspan (ustart s - k) (uend s - k)))).
+Proof. exact span_rebase_inverse. Qed.
+Check C03_span_rebase_inverse :
+  (forall s k s', u_push_by s k = Ok s' -> u_pull_by s' k = Ok s) /\
+  (forall s k s', urep s -> u_pull_by s k = Ok s' -> u_push_by s' k = Ok s) /\
+  (forall s k s', u_pushed_by s k = Ok s' -> u_pulled_by s' k = Ok (Some s)) /\
+  (forall s k s', urep s -> u_pulled_by s k = Ok (Some s') -> u_pushed_by s' k = Ok s) /\
+  (forall s k, uwf s -> (ustart s < k)%N -> u_pulled_by s k = Ok None) /\
+  (forall s k, uwf s -> (k <= ustart s)%N -> u_pulled_by s k = Ok (Some (mkuspan (ustart s - k) (uend s - k)))).
+Print Assumptions C03_span_rebase_inverse.
+
+(* with_len / set_len keep the start, set the length, panic exactly on overflow *)
+Theorem C03_span_with_len_keeps_start :
+  (forall s l s', u_with_len s l = Ok s' -> ustart s' = ustart s /\ uend s' = (ustart s + l)%N /\ u_len s' = Ok l /\ uwf s') /\
+  (forall s l, (ustart s + l <= usize_max)%N -> u_with_len s l = Ok (mkuspan (ustart s) (ustart s + l))) /\
+  (forall s l, (usize_max < ustart s + l)%N -> u_with_len s l = Panic POverflow) /\
+  (forall s l, u_set_len s l = u_with_len s l).
+Proof. exact span_with_len_keeps_start. Qed.
+Check C03_span_with_len_keeps_start :
+  (forall s l s', u_with_len s l = Ok s' -> ustart s' = ustart s /\ uend s' = (ustart s + l)%N /\ u_len s' = Ok l /\ uwf s') /\
+  (forall s l, (ustart s + l <= usize_max)%N -> u_with_len s l = Ok (mkuspan (ustart s) (ustart s + l))) /\
+  (forall s l, (usize_max < ustart s + l)%N -> u_with_len s l = Panic POverflow) /\
+  (forall s l, u_set_len s l = u_with_len s l).
+Print Assumptions C03_span_with_len_keeps_start.
+
+(* overlaps_with is symmetric and, for non-empty spans, equivalent to sharing a character position *)
+Theorem C03_span_overlaps_shared :
+  (forall a b, u_overlaps_with a b = u_overlaps_with b a) /\
+  (forall a b, (ustart a < uend a)%N -> (ustart b < uend b)%N ->
+     (u_overlaps_with a b = true <-> exists i, u_contains a i = Ok true /\ u_contains b i = Ok true)) /\
+  (forall a b i, uwf a -> uwf b -> u_contains a i = Ok true -> u_contains b i = Ok true -> u_overlaps_with a b = true).
+Proof. exact span_overlaps_shared. Qed.
+Check C03_span_overlaps_shared :
+  (forall a b, u_overlaps_with a b = u_overlaps_with b a) /\
+  (forall a b, (ustart a < uend a)%N -> (ustart b < uend b)%N ->
+     (u_overlaps_with a b = true <-> exists i, u_contains a i = Ok true /\ u_contains b i = Ok true)) /\
+  (forall a b i, uwf a -> uwf b -> u_contains a i = Ok true -> u_contains b i = Ok true -> u_overlaps_with a b = true).
+Print Assumptions C03_span_overlaps_shared.
+
+(* get_content = the slice; its panics: ill-formed span (underflow in is_empty), non-empty span beyond the source *)
+Theorem C03_span_get_content_is_slice :
+  (forall (s : uspan) (src : text), uwf s -> (uend s <= N.of_nat (length src))%N ->
+     u_get_content s src = Ok (slice src (N.to_nat (ustart s)) (N.to_nat (uend s)))) /\
+  (forall (s : uspan) (src : text), ustart s = uend s -> u_get_content s src = Ok []) /\
+  (forall (s : uspan) (src : text), (uend s < ustart s)%N -> u_get_content s src = Panic PUnderflow) /\
+  (forall (s : uspan) (src : text), (ustart s < uend s)%N -> (N.of_nat (length src) < uend s)%N -> u_get_content s src = Panic PIndex) /\
+  (forall (s : uspan) (src : text), u_get_content_string s src = u_get_content s src).
+Proof. exact span_get_content_is_slice. Qed.
+Check C03_span_get_content_is_slice :
+  (forall (s : uspan) (src : text), uwf s -> (uend s <= N.of_nat (length src))%N ->
+     u_get_content s src = Ok (slice src (N.to_nat (ustart s)) (N.to_nat (uend s)))) /\
+  (forall (s : uspan) (src : text), ustart s = uend s -> u_get_content s src = Ok []) /\
+  (forall (s : uspan) (src : text), (uend s < ustart s)%N -> u_get_content s src = Panic PUnderflow) /\
+  (forall (s : uspan) (src : text), (ustart s < uend s)%N -> (N.of_nat (length src) < uend s)%N -> u_get_content s src = Panic PIndex) /\
+  (forall (s : uspan) (src : text), u_get_content_string s src = u_get_content s src).
+Print Assumptions C03_span_get_content_is_slice.
+
+(* new, from_range, new_with_len, len, is_empty, contains, into_iter: values and panics *)
+Theorem C03_span_basic_ops :
+  (forall a b, (a <= b)%N -> u_new a b = Ok (mkuspan a b)) /\ (forall a b, (b < a)%N -> u_new a b = Panic PSpanOrder) /\
+  (forall a b, u_from_range a b = u_new a b) /\
+  (forall a l, (a + l <= usize_max)%N -> u_new_with_len a l = Ok (mkuspan a (a + l))) /\
+  (forall a l, (usize_max < a + l)%N -> u_new_with_len a l = Panic POverflow) /\
+  (forall s, uwf s -> u_len s = Ok (uend s - ustart s)%N /\ u_is_empty s = Ok (ustart s =? uend s)%N) /\
+  (forall s, (uend s < ustart s)%N -> u_len s = Panic PUnderflow /\ u_is_empty s = Panic PUnderflow) /\
+  (forall s i, uwf s -> (u_contains s i = Ok true <-> (ustart s <= i < uend s)%N)) /\
+  (forall s i, (uend s < ustart s)%N -> u_contains s i = Panic PSpanOrder) /\
+  (forall s i, In i (u_into_iter s) <-> (ustart s <= i < uend s)%N).
+Proof. exact span_basic_ops. Qed.
+Check C03_span_basic_ops :
+  (forall a b, (a <= b)%N -> u_new a b = Ok (mkuspan a b)) /\ (forall a b, (b < a)%N -> u_new a b = Panic PSpanOrder) /\
+  (forall a b, u_from_range a b = u_new a b) /\
+  (forall a l, (a + l <= usize_max)%N -> u_new_with_len a l = Ok (mkuspan a (a + l))) /\
+  (forall a l, (usize_max < a + l)%N -> u_new_with_len a l = Panic POverflow) /\
+  (forall s, uwf s -> u_len s = Ok (uend s - ustart s)%N /\ u_is_empty s = Ok (ustart s =? uend s)%N) /\
+  (forall s, (uend s < ustart s)%N -> u_len s = Panic PUnderflow /\ u_is_empty s = Panic PUnderflow) /\
+  (forall s i, uwf s -> (u_contains s i = Ok true <-> (ustart s <= i < uend s)%N)) /\
+  (forall s i, (uend s < ustart s)%N -> u_contains s i = Panic PSpanOrder) /\
+  (forall s i, In i (u_into_iter s) <-> (ustart s <= i < uend s)%N).
+Print Assumptions C03_span_basic_ops.
+
+(* the unbounded nat-level operations of Base.v (every other model) are this model; the only extra panics are overflows above usize::MAX *)
+Theorem C03_span_base_refines :
+  (forall a b, res_map to_base (u_new a b) = span_new (N.to_nat a) (N.to_nat b)) /\
+  (forall s k, res_map to_base (u_pull_by s k) = pull_by (to_base s) (N.to_nat k)) /\
+  (forall s k s', u_push_by s k = Ok s' -> push_by (to_base s) (N.to_nat k) = to_base s') /\
+  (forall s k w, u_push_by s k = Panic w -> w = POverflow /\ (usize_max < uend s + k \/ usize_max < ustart s + k)%N) /\
+  (forall s l s', u_with_len s l = Ok s' -> with_len (to_base s) (N.to_nat l) = to_base s') /\
+  (forall a l s, u_new_with_len a l = Ok s -> span_new_with_len (N.to_nat a) (N.to_nat l) = to_base s) /\
+  (forall s k o, uwf s -> u_pulled_by s k = Ok o -> pulled_by (to_base s) (N.to_nat k) = option_map to_base o) /\
+  (forall a b, u_overlaps_with a b = overlaps (to_base a) (to_base b)) /\
+  (forall s, u_len s = res_map N.of_nat (span_len (to_base s))) /\
+  (forall (s : uspan) (src : text), u_try_get_content s src = try_get_content (to_base s) src) /\
+  (forall (s : uspan) (src : text), u_get_content s src = get_content (to_base s) src).
+Proof. exact span_base_refines. Qed.
+Check C03_span_base_refines :
+  (forall a b, res_map to_base (u_new a b) = span_new (N.to_nat a) (N.to_nat b)) /\
+  (forall s k, res_map to_base (u_pull_by s k) = pull_by (to_base s) (N.to_nat k)) /\
+  (forall s k s', u_push_by s k = Ok s' -> push_by (to_base s) (N.to_nat k) = to_base s') /\
+  (forall s k w, u_push_by s k = Panic w -> w = POverflow /\ (usize_max < uend s + k \/ usize_max < ustart s + k)%N) /\
+  (forall s l s', u_with_len s l = Ok s' -> with_len (to_base s) (N.to_nat l) = to_base s') /\
+  (forall a l s, u_new_with_len a l = Ok s -> span_new_with_len (N.to_nat a) (N.to_nat l) = to_base s) /\
+  (forall s k o, uwf s -> u_pulled_by s k = Ok o -> pulled_by (to_base s) (N.to_nat k) = option_map to_base o) /\
+  (forall a b, u_overlaps_with a b = overlaps (to_base a) (to_base b)) /\
+  (forall s, u_len s = res_map N.of_nat (span_len (to_base s))) /\
+  (forall (s : uspan) (src : text), u_try_get_content s src = try_get_content (to_base s) src) /\
+  (forall (s : uspan) (src : text), u_get_content s src = get_content (to_base s) src).
+Print Assumptions C03_span_base_refines.
+
+(* the quirk of pulled_by: the second subtraction is not guarded, an ill-formed span makes it panic *)
+Theorem C03_span_pulled_by_illformed_panics : forall s k, (uend s < k)%N -> (k <= ustart s)%N -> u_pulled_by s k = Panic PUnderflow.
+Proof. exact u_pulled_by_illformed_panics. Qed.
+Check C03_span_pulled_by_illformed_panics : forall s k, (uend s < k)%N -> (k <= ustart s)%N -> u_pulled_by s k = Panic PUnderflow.
+Print Assumptions C03_span_pulled_by_illformed_panics.
+
+Example C03_span_nonvacuous :
+  u_pushed_by (mkuspan 3 7) 5 = Ok (mkuspan 8 12) /\ u_pulled_by (mkuspan 8 12) 5 = Ok (Some (mkuspan 3 7)) /\
+  u_pulled_by (mkuspan 3 7) 4 = Ok None /\ u_pulled_by (mkuspan 5 2) 3 = Panic PUnderflow /\
+  u_with_len (mkuspan 3 7) 1 = Ok (mkuspan 3 4) /\ u_with_len (mkuspan 3 7) usize_max = Panic POverflow /\
+  u_overlaps_with (mkuspan 1 4) (mkuspan 3 9) = true /\ u_overlaps_with (mkuspan 1 3) (mkuspan 3 9) = false /\
+  u_get_content (mkuspan 1 3) [10; 11; 12; 13]%N = Ok [11; 12]%N /\ u_get_content (mkuspan 1 5) [10; 11; 12; 13]%N = Panic PIndex /\
+  u_push_by (mkuspan 1 usize_max) 1 = Panic POverflow /\ u_pull_by (mkuspan 2 5) 3 = Panic PUnderflow.
+Proof. vm_compute. repeat split. Qed.
+
+(* ================= LintGroup::lint, the whole loop, over histories (Model/C03LintGroup.v) ================= *)
+(* IF every whole-document rule keeps its lints inside the document and every pattern rule keeps its lints inside the
+   chunk it is run on (at every call: rules may carry state), THEN for every history of configuration changes, lint
+   calls and evictions on ONE LintGroup (any eviction schedule = any LRU capacity; ANY hash functions, collisions
+   included) starting from a cache that satisfies the invariant (an empty one does): no call panics, every call is
+   answered, and every lint of every answer lies inside the document of that call.  Documents satisfy the token
+   invariant as far as needed (hist_ok: every chunk's hull ends inside the source). *)
+Theorem C03_lintgroup_history_in_bounds :
+  forall (cfg kind : Type) (enabled : cfg -> N -> bool) (cfg_hash : cfg -> N) (tok_hash : list (tok kind) -> N)
+         (linters : list (N * wrule kind)) (plinters : list (N * prule kind)),
+    (forall n r t d, In (n, r) linters -> doc_ok kind d -> Forall (lint_in (length (l_src d))) (r t d)) ->
+    (forall n r t src ts sp, In (n, r) plinters -> hull_of ts = Ok (Some sp) -> send sp <= length src ->
+        Forall (lint_within sp) (r t src ts)) ->
+    forall (h : list (lop cfg kind)) (st : lstate cfg),
+      hist_ok cfg kind h -> cache_ok (lg_cache st) ->
+      exists st' outs,
+        lg_run cfg kind enabled cfg_hash tok_hash linters plinters h st = Ok (st', outs) /\
+        cache_ok (lg_cache st') /\
+        map fst outs = hist_docs cfg kind h /\
+        Forall (fun p => Forall (lint_in (length (l_src (fst p)))) (snd p)) outs.
+Proof. exact lg_history_in_bounds. Qed.
+Check C03_lintgroup_history_in_bounds :
+  forall (cfg kind : Type) (enabled : cfg -> N -> bool) (cfg_hash : cfg -> N) (tok_hash : list (tok kind) -> N)
+         (linters : list (N * wrule kind)) (plinters : list (N * prule kind)),
+    (forall n r t d, In (n, r) linters -> doc_ok kind d -> Forall (lint_in (length (l_src d))) (r t d)) ->
+    (forall n r t src ts sp, In (n, r) plinters -> hull_of ts = Ok (Some sp) -> send sp <= length src ->
+        Forall (lint_within sp) (r t src ts)) ->
+    forall (h : list (lop cfg kind)) (st : lstate cfg),
+      hist_ok cfg kind h -> cache_ok (lg_cache st) ->
+      exists st' outs,
+        lg_run cfg kind enabled cfg_hash tok_hash linters plinters h st = Ok (st', outs) /\
+        cache_ok (lg_cache st') /\
+        map fst outs = hist_docs cfg kind h /\
+        Forall (fun p => Forall (lint_in (length (l_src (fst p)))) (snd p)) outs.
+Print Assumptions C03_lintgroup_history_in_bounds.
+
+(* the premise cannot be weakened: a pattern rule reporting a span that starts before its chunk makes the call panic
+   on a miss (usize underflow in pull_by, debug build) *)
+Theorem C03_lintgroup_lint_before_chunk_panics :
+  forall (cfg kind : Type) (enabled : cfg -> N -> bool) (cfg_hash : cfg -> N) (tok_hash : list (tok kind) -> N)
+         (plinters : list (N * prule kind)) t c src ts rest evs m sp chars rt l pl,
+    hull_of ts = Ok (Some sp) -> get_content sp src = Ok chars -> rel_toks (sstart sp) ts = Ok rt ->
+    lookup code_key_eqb (chars, cfg_hash c, tok_hash rt) (evict (hd keep_all evs) m) = None ->
+    run_plinters cfg kind enabled plinters t c src ts = l :: pl -> sstart (cl_span l) < sstart sp ->
+    lg_chunks cfg kind enabled cfg_hash tok_hash plinters t c src (ts :: rest) evs m = Panic PUnderflow.
+Proof. exact lg_chunk_before_start_panics. Qed.
+Check C03_lintgroup_lint_before_chunk_panics :
+  forall (cfg kind : Type) (enabled : cfg -> N -> bool) (cfg_hash : cfg -> N) (tok_hash : list (tok kind) -> N)
+         (plinters : list (N * prule kind)) t c src ts rest evs m sp chars rt l pl,
+    hull_of ts = Ok (Some sp) -> get_content sp src = Ok chars -> rel_toks (sstart sp) ts = Ok rt ->
+    lookup code_key_eqb (chars, cfg_hash c, tok_hash rt) (evict (hd keep_all evs) m) = None ->
+    run_plinters cfg kind enabled plinters t c src ts = l :: pl -> sstart (cl_span l) < sstart sp ->
+    lg_chunks cfg kind enabled cfg_hash tok_hash plinters t c src (ts :: rest) evs m = Panic PUnderflow.
+Print Assumptions C03_lintgroup_lint_before_chunk_panics.
+
+(* non-vacuity: concrete rules satisfy both premises, a history (two documents, a configuration change, a full
+   eviction) satisfies hist_ok; the second clause of document 1 is served from the cache at another offset;
+   and "inside the chunk" cannot be weakened to "inside the document" (ex_chunk_premise_needed: the lint leaves
+   the LATER, shorter document when served from the cache) *)
+Example C03_lintgroup_nonvacuous :
+  wrules_ok N [(7%N, ex_wrule)] /\ prules_ok N [(0%N, ex_prule)] /\ hist_ok N N ex_hist /\
+  exists st, ex_run [(0%N, ex_prule)] ex_hist =
+    Ok (st, [(ex_doc1, [mkclint (mkspan 0 6) 20%N; mkclint (mkspan 0 2) 10%N; mkclint (mkspan 3 5) 10%N]);
+             (ex_doc2, [mkclint (mkspan 0 6) 20%N; mkclint (mkspan 3 5) 10%N])]).
+Proof. exact (conj ex_wrules_ok (conj ex_prules_ok (conj ex_hist_ok ex_run_value))). Qed.
 
 (* non-vacuity: all three kinds on a concrete text, incl. the equal-length in-place path, a span
    touching the end, and the rejected case *)
